@@ -8,7 +8,8 @@ import json, sys
 pid, l = sys.argv[1], sys.argv[2]
 props = {json.loads(x)['id']: json.loads(x) for x in open('/verif/properties.jsonl')}
 p = props[pid]
-t = open('/verif/tools/seed_prompt.tmpl').read().format(wt=f'/tmp/wt/{pid}{l}', out=f'/tmp/seed-out/{pid}{l}', id=pid, title=p['title'],
+import os
+t = open('/verif/tools/seed_prompt' + os.environ.get('TMPLSFX', '') + '.tmpl').read().format(wt=f'/tmp/wt/{pid}{l}', out=f'/tmp/seed-out/{pid}{l}', id=pid, title=p['title'],
         statement=p['statement'], qtext=p['quantifier']['text'], files=', '.join(p['anchors']['files']))
 open(f'/tmp/seed-out/{pid}{l}/PROMPT.txt', 'w').write(t)
 print(pid, p['title'])
